@@ -1,1 +1,2 @@
 import GenE.Ops
+import GenE.Data
